@@ -54,64 +54,38 @@ theorem peekLoop_fuel : ∀ (f : Nat) (s : St), Inv s → fuelOf s ≤ f →
       | hang => rfl
     · rfl
 
-theorem peekPast_fuel : ∀ (f : Nat) (s : St), Inv s → fuelOf s ≤ f →
-    peekPast f s = peekPast (fuelOf s) s
-  | 0, s, _, hf => by simp [fuelOf] at hf
-  | f + 1, s, hi, hf => by
-    have hfo : fuelOf s = s.rest.length + 1 := rfl
-    rw [hfo]
-    unfold peekPast
-    split
-    · have hm := decodeMessage_sat s hi
-      cases hr : decodeMessage s with
-      | ok p =>
-        obtain ⟨s', ev⟩ := p
-        rw [hr] at hm
-        obtain ⟨m1, hlt⟩ := hm
-        simp only at m1 hlt ⊢
-        have h1 := peekPast_fuel f s' m1.1 (by simp only [fuelOf] at hf ⊢; omega)
-        have h2 := peekPast_fuel s.rest.length s' m1.1 (by simp only [fuelOf]; omega)
-        rw [h1, h2]
-      | err e => rfl
-      | panic => rfl
-      | hang => rfl
-    · rfl
 
-
-/-- the record loop of `Decode` continued after the loop of `PeekFileId` (which never started a record outside the data
-window): the peek's listener calls first, then what the rest of the loop does; if the peek failed, the loop fails alike -/
+/-- the record loop of `Decode` continued after the loop of `PeekFileId` (which stops at the first file_id message or at the
+end of the data window): the peek's listener calls first, then what the rest of the loop does; if the peek failed, the
+loop fails alike -/
 def contAfterPeek (p : LoopOut) : LoopOut :=
   match p.2.2 with
   | .ok () => let q := decodeMessages (fuelOf p.1) p.1; (q.1, p.2.1 ++ q.2.1, q.2.2)
   | _ => p
 
-theorem loop_split (n : Nat) : ∀ (s : St), s.rest.length = n → Inv s → peekPast (fuelOf s) s = false →
+theorem loop_split (n : Nat) : ∀ (s : St), s.rest.length = n → Inv s →
     decodeMessages (fuelOf s) s = contAfterPeek (peekLoop (fuelOf s) s) := by
   induction n using Nat.strongRecOn with
   | _ n IH =>
-    intro s hn hi hp
+    intro s hn hi
     have hfo : fuelOf s = s.rest.length + 1 := rfl
-    rw [hfo] at hp ⊢
+    rw [hfo]
     unfold peekLoop
-    unfold peekPast at hp
     split
-    · rename_i hnone
-      simp only [hnone, if_true, Bool.or_eq_false_iff, decide_eq_false_iff_not] at hp
-      obtain ⟨hcur, hp'⟩ := hp
-      have hcur' : s.q.cur < s.q.hdr.dataSize := by omega
+    · rename_i hc
+      have hcur' : s.q.cur < s.q.hdr.dataSize := hc.2
       unfold decodeMessages
       simp only [hcur', if_true]
       have hm := decodeMessage_sat s hi
       cases hr : decodeMessage s with
       | ok p =>
         obtain ⟨s', ev⟩ := p
-        rw [hr] at hm hp'
+        rw [hr] at hm
         obtain ⟨m1, hlt⟩ := hm
-        simp only at m1 hlt hp' ⊢
+        simp only at m1 hlt ⊢
         have hf' : fuelOf s' ≤ s.rest.length := by simp only [fuelOf]; omega
         rw [decodeMessages_fuel _ s' m1.1 hf', peekLoop_fuel _ s' m1.1 hf']
-        rw [peekPast_fuel _ s' m1.1 hf'] at hp'
-        have ih := IH s'.rest.length (by omega) s' rfl m1.1 hp'
+        have ih := IH s'.rest.length (by omega) s' rfl m1.1
         rw [ih]
         rcases hpk : peekLoop (fuelOf s') s' with ⟨s2, evs1, r⟩
         cases r with
@@ -124,6 +98,100 @@ theorem loop_split (n : Nat) : ∀ (s : St), s.rest.length = n → Inv s → pee
       | hang => simp [loopFail, contAfterPeek]
     · simp [contAfterPeek, hfo]
 
+theorem decodeMessagesCtx_fuel : ∀ (f k : Nat) (s : St), Inv s → fuelOf s ≤ f →
+    decodeMessagesCtx f k s = decodeMessagesCtx (fuelOf s) k s
+  | f, 0, s, _, _ => by
+    have hfo : fuelOf s = s.rest.length + 1 := rfl
+    rw [hfo]
+    unfold decodeMessagesCtx; rfl
+  | 0, k + 1, s, _, hf => by simp [fuelOf] at hf
+  | f + 1, k + 1, s, hi, hf => by
+    have hfo : fuelOf s = s.rest.length + 1 := rfl
+    rw [hfo]
+    unfold decodeMessagesCtx
+    split
+    · have hm := decodeMessage_sat s hi
+      cases hr : decodeMessage s with
+      | ok p =>
+        obtain ⟨s', ev⟩ := p
+        rw [hr] at hm
+        obtain ⟨m1, hlt⟩ := hm
+        simp only at m1 hlt ⊢
+        have h1 := decodeMessagesCtx_fuel f k s' m1.1 (by simp only [fuelOf] at hf ⊢; omega)
+        have h2 := decodeMessagesCtx_fuel s.rest.length k s' m1.1 (by simp only [fuelOf]; omega)
+        rw [h1, h2]
+      | err e => rfl
+      | panic => rfl
+      | hang => rfl
+    · rfl
+
+theorem peekCount_fuel : ∀ (f : Nat) (s : St), Inv s → fuelOf s ≤ f →
+    peekCount f s = peekCount (fuelOf s) s
+  | 0, s, _, hf => by simp [fuelOf] at hf
+  | f + 1, s, hi, hf => by
+    have hfo : fuelOf s = s.rest.length + 1 := rfl
+    rw [hfo]
+    unfold peekCount
+    split
+    · have hm := decodeMessage_sat s hi
+      cases hr : decodeMessage s with
+      | ok p =>
+        obtain ⟨s', ev⟩ := p
+        rw [hr] at hm
+        obtain ⟨m1, hlt⟩ := hm
+        simp only at m1 hlt ⊢
+        have h1 := peekCount_fuel f s' m1.1 (by simp only [fuelOf] at hf ⊢; omega)
+        have h2 := peekCount_fuel s.rest.length s' m1.1 (by simp only [fuelOf]; omega)
+        rw [h1, h2]
+      | err e => rfl
+      | panic => rfl
+      | hang => rfl
+    · rfl
+
+/-- the record loop of `DecodeWithContext` (context first seen cancelled after `k` more records) continued after a
+successful loop of `PeekFileId` -/
+def contAfterPeekCtx (k : Nat) (p : LoopOut) : LoopOut :=
+  let q := decodeMessagesCtx (fuelOf p.1) k p.1
+  (q.1, p.2.1 ++ q.2.1, q.2.2)
+
+/-- a cancellation seen after `k` more records following a successful peek of `j` records is a cancellation seen after
+`j + k` records of the sequence -/
+theorem loop_split_ctx (k : Nat) (n : Nat) : ∀ (s : St), s.rest.length = n → Inv s →
+    (peekLoop (fuelOf s) s).2.2 = .ok () →
+    decodeMessagesCtx (fuelOf s) (peekCount (fuelOf s) s + k) s = contAfterPeekCtx k (peekLoop (fuelOf s) s) := by
+  induction n using Nat.strongRecOn with
+  | _ n IH =>
+    intro s hn hi hok
+    have hfo : fuelOf s = s.rest.length + 1 := rfl
+    rw [hfo] at hok ⊢
+    unfold peekLoop at hok ⊢
+    unfold peekCount
+    split
+    · rename_i hc
+      simp only [hc, and_self, if_true] at hok
+      have hcur' : s.q.cur < s.q.hdr.dataSize := hc.2
+      have hm := decodeMessage_sat s hi
+      cases hr : decodeMessage s with
+      | ok p =>
+        obtain ⟨s', ev⟩ := p
+        rw [hr] at hm hok
+        obtain ⟨m1, hlt⟩ := hm
+        simp only at m1 hlt hok ⊢
+        have hf' : fuelOf s' ≤ s.rest.length := by simp only [fuelOf]; omega
+        rw [peekLoop_fuel _ s' m1.1 hf'] at hok ⊢
+        rw [peekCount_fuel _ s' m1.1 hf']
+        have ih := IH s'.rest.length (by omega) s' rfl m1.1 hok
+        have hk : peekCount (fuelOf s') s' + 1 + k = (peekCount (fuelOf s') s' + k) + 1 := by omega
+        rw [hk]
+        unfold decodeMessagesCtx
+        simp only [hcur', if_true, hr]
+        rw [decodeMessagesCtx_fuel _ _ s' m1.1 hf', ih]
+        rcases hpk : peekLoop (fuelOf s') s' with ⟨s2, evs1, r⟩
+        simp [contAfterPeekCtx]
+      | err e => rw [hr] at hok; simp [loopFail] at hok
+      | panic => rw [hr] at hok; simp [loopFail] at hok
+      | hang => rw [hr] at hok; simp [loopFail] at hok
+    · simp [contAfterPeekCtx, hfo]
 
 /-- the same decoder with checksums off (what `Discard` works with) -/
 def noChk (s : St) : St := { s with o := { s.o with chk := false } }
@@ -289,8 +357,9 @@ theorem stepPeekHeader_after_header (s s1 : St) (hi : Inv s) (he : s.q.err = non
   exact ⟨rfl, rfl⟩
 
 /-- `peekLoop` on a state that already holds a file id stops at once -/
-theorem peekLoop_done (f : Nat) (s : St) (h : s.q.fileId.isNone = false) : peekLoop (f + 1) s = (s, [], .ok ()) := by
-  unfold peekLoop; simp [h]
+theorem peekLoop_done (f : Nat) (s : St) (h : ¬ (s.q.fileId.isNone ∧ s.q.cur < s.q.hdr.dataSize)) :
+    peekLoop (f + 1) s = (s, [], .ok ()) := by
+  unfold peekLoop; simp only [h, if_false]
 
 theorem noChk_o (s : St) : (noChk s).o = { s.o with chk := false } := rfl
 
@@ -429,20 +498,10 @@ theorem discardTail_spec (chk : Bool) (s1 : St) (hc : s1.q.cur ≤ s1.q.hdr.data
       exact ⟨rfl, rfl⟩
 
 
-/-- the tail of `Decode` after the record loop: CRC, `reset()`, release -/
-def decodeTail (l : LoopOut) : StepOut :=
-  match l with
-  | (s2, evs, .ok ()) =>
-    match decodeCRC s2 with
-    | .ok s3 => (release (resetSeq s3), .fit ⟨s3.q.hdr, s3.q.msgs.reverse, s3.q.crc⟩, evs)
-    | r => let (s', o) := fail s2 r; (release s', o, evs)
-  | (s2, evs, r) => let (s', o) := fail s2 r; (release s', o, evs)
-
 theorem decodeBody_eq (s s1 : St) (h : headerOnce s = .ok s1) :
     decodeBody s = decodeTail (decodeMessages (fuelOf s1) s1) := by
   unfold decodeBody decodeTail
   rw [h]
-  rfl
 
 /-- the tail only passes the listener calls through -/
 theorem decodeTail_events (s2 : St) (evs pre : List Event) (r : Res Unit) :
@@ -454,10 +513,10 @@ theorem decodeTail_events (s2 : St) (evs pre : List Event) (r : Res Unit) :
   | panic => rfl
   | hang => rfl
 
-/-- **`PeekFileId` is transparent for `Decode`** (when the peek stayed inside the data window): the decoder state,
+/-- **`PeekFileId` is transparent for `Decode`**: the decoder state,
 the result and the listener calls of peek + decode together are those of a decode alone -/
 theorem decode_after_peek (s s1 s2 : St) (evs1 : List Event) (hi : Inv s) (he : s.q.err = none)
-    (hh : headerOnce s = .ok s1) (hp : peekLoop (fuelOf s1) s1 = (s2, evs1, .ok ())) (hnp : peekPast (fuelOf s1) s1 = false) :
+    (hh : headerOnce s = .ok s1) (hp : peekLoop (fuelOf s1) s1 = (s2, evs1, .ok ())) :
     stepDecode s = ((stepDecode s2).1, (stepDecode s2).2.1, evs1 ++ (stepDecode s2).2.2) := by
   have h1 := headerOnce_ok s s1 hi he hh
   have hpl := peekLoop_sat (fuelOf s1) s1 h1.1 (by simp [fuelOf])
@@ -466,7 +525,7 @@ theorem decode_after_peek (s s1 s2 : St) (evs1 : List Event) (hi : Inv s) (he : 
   simp only at i2 r2
   have e2 : s2.q.err = none := by rw [r2.err]; exact h1.2.2.2.2.1
   have d2 : s2.q.hdrDone = true := by rw [r2.hdrDone]; exact h1.2.2.2.1
-  have hs := loop_split s1.rest.length s1 rfl h1.1 hnp
+  have hs := loop_split s1.rest.length s1 rfl h1.1
   rw [hp] at hs
   unfold stepDecode
   rw [he, e2]
@@ -476,12 +535,12 @@ theorem decode_after_peek (s s1 s2 : St) (evs1 : List Event) (hi : Inv s) (he : 
   rcases decodeMessages (fuelOf s2) s2 with ⟨sf, evs2, r⟩
   exact decodeTail_events sf evs2 evs1 r
 
-/-- a `PeekFileId` that fails inside the data window fails where `Decode` fails, with the same error and listener calls -/
+/-- a `PeekFileId` that fails fails where `Decode` fails, with the same error and listener calls -/
 theorem decode_when_peek_fails (s s1 s2 : St) (evs1 : List Event) (e : Err) (hi : Inv s) (he : s.q.err = none)
-    (hh : headerOnce s = .ok s1) (hp : peekLoop (fuelOf s1) s1 = (s2, evs1, .err e)) (hnp : peekPast (fuelOf s1) s1 = false) :
+    (hh : headerOnce s = .ok s1) (hp : peekLoop (fuelOf s1) s1 = (s2, evs1, .err e)) :
     (stepDecode s).2 = (.err e, evs1) := by
   have h1 := headerOnce_ok s s1 hi he hh
-  have hs := loop_split s1.rest.length s1 rfl h1.1 hnp
+  have hs := loop_split s1.rest.length s1 rfl h1.1
   rw [hp] at hs
   unfold stepDecode
   rw [he]
@@ -497,6 +556,42 @@ theorem decode_when_header_fails (s : St) (e : Err) (he : s.q.err = none) (hh : 
   rw [hh]
   rfl
 
+
+theorem stepDecodeCtxAt_after_header (k : Nat) (s s1 : St) (hi : Inv s) (he : s.q.err = none) (h : headerOnce s = .ok s1) :
+    stepDecodeCtxAt k s1 = stepDecodeCtxAt k s := by
+  have h1 := headerOnce_ok s s1 hi he h
+  unfold stepDecodeCtxAt
+  rw [h1.2.2.2.2.1, he]
+  simp only
+  unfold decodeBodyAt
+  rw [h, h1.2.2.2.2.2.2]
+
+/-- **`PeekFileId` is transparent for `DecodeWithContext`**, cancellation included: a context first seen cancelled `k`
+records after a successful peek of `j` records gives what a context first seen cancelled after `j + k` records gives
+without the peek -/
+theorem decodeAt_after_peek (k : Nat) (s s1 s2 : St) (evs1 : List Event) (hi : Inv s) (he : s.q.err = none)
+    (hh : headerOnce s = .ok s1) (hp : peekLoop (fuelOf s1) s1 = (s2, evs1, .ok ())) :
+    stepDecodeCtxAt (peekCount (fuelOf s1) s1 + k) s =
+      ((stepDecodeCtxAt k s2).1, (stepDecodeCtxAt k s2).2.1, evs1 ++ (stepDecodeCtxAt k s2).2.2) := by
+  have h1 := headerOnce_ok s s1 hi he hh
+  have hpl := peekLoop_sat (fuelOf s1) s1 h1.1 (by simp [fuelOf])
+  rw [hp] at hpl
+  obtain ⟨_, i2, r2, _⟩ := hpl
+  simp only at i2 r2
+  have e2 : s2.q.err = none := by rw [r2.err]; exact h1.2.2.2.2.1
+  have d2 : s2.q.hdrDone = true := by rw [r2.hdrDone]; exact h1.2.2.2.1
+  have hs := loop_split_ctx k s1.rest.length s1 rfl h1.1 (by rw [hp])
+  rw [hp] at hs
+  unfold stepDecodeCtxAt
+  rw [he, e2]
+  simp only
+  unfold decodeBodyAt
+  rw [hh, headerOnce_done s2 d2 e2]
+  simp only
+  rw [hs]
+  simp only [contAfterPeekCtx]
+  rcases decodeMessagesCtx (fuelOf s2) k s2 with ⟨sf, evs2, r⟩
+  exact decodeTail_events sf evs2 evs1 r
 
 /-- byte strings shorter than 4 GiB (`Decoder.cur` is a uint32) -/
 def Small (l : List Nat) : Prop := IsBytes l ∧ l.length < 4294967296
@@ -515,7 +610,7 @@ def Sim (a : Api) (p : Spec) : Prop :=
   | .start => a.d = p.st ∧ ((a.n == 0) = p.atStart)
   | .header => headerOnce p.st = .ok a.d ∧ a.n ≠ 0
   | .fileId k lost => ∃ s1 evs1, headerOnce p.st = .ok s1 ∧ peekLoop (fuelOf s1) s1 = (a.d, evs1, .ok ()) ∧
-      evs1.length = k ∧ lost = decide (a.d.q.cur > a.d.q.hdr.dataSize) ∧ peekPast (fuelOf s1) s1 = false ∧ a.n ≠ 0
+      evs1.length = k ∧ lost = decide (a.d.q.cur > a.d.q.hdr.dataSize) ∧ a.n ≠ 0
   | .peekFailed e k => a.d.q.err = some e ∧ (stepDecode p.st).2.1 = .err e ∧ (stepDecode p.st).2.2.drop k = []
   | .dead e => a.d.q.err = some e
   | .blind => True
@@ -588,6 +683,10 @@ theorem sim_peekFailed (a : Api) (p : Spec) (e : Err) (k : Nat) (op : Op) (hop :
       have : specStep p (.decodeCtx true) = ({ p with ph := .dead e }, some (.err e, [])) := by unfold specStep; simp [hph]
       rw [this]
       exact ⟨hdead, by intro x hx; cases hx; rw [hst.1]; rfl⟩
+  | decodeCtxAt j =>
+    have : specStep p (.decodeCtxAt j) = ({ p with ph := .dead e }, some (.err e, [])) := by unfold specStep; simp [hph]
+    rw [this]
+    exact ⟨hdead, by intro x hx; cases hx; rw [hst.1]; rfl⟩
   | peekHeader =>
     have : specStep p .peekHeader = (p, some (.err e, [])) := by unfold specStep; simp [hph]
     rw [this]
@@ -688,6 +787,67 @@ theorem sim_after_decode (a : Api) (p : Spec) (pre evs' : List Event) (s' : St) 
   | bool b => exact hk.elim
   | integrity n e => exact hk.elim
 
+
+theorem stepDecodeCtxAt_kind (k : Nat) (s : St) : (stepDecodeCtxAt k s).2.1.isDecodeKind := by
+  unfold stepDecodeCtxAt
+  split
+  · trivial
+  · unfold decodeBodyAt
+    cases hr : headerOnce s with
+    | ok s1 => exact decodeTail_kind _
+    | err e => trivial
+    | panic => trivial
+    | hang => trivial
+
+/-- after a `DecodeWithContext` (context first seen cancelled after `K` records of the sequence) whose state and result are
+the fresh decoder's (`pre` listener calls made before by a peek) -/
+theorem sim_after_decodeAt (a : Api) (p : Spec) (K : Nat) (pre evs' : List Event) (s' : St) (out : Out)
+    (hw : a.whole = p.whole) (hsw : Small p.whole ∧ FacOK p.o.fac) (hsc : Small p.cur)
+    (hfresh : stepDecodeCtxAt K p.st = (s', out, pre ++ evs'))
+    (hn : a.n ≠ 0 ∨ a.d.rest = p.cur) :
+    Sim (a.advance s') (specDecodeAt p pre.length K).1 ∧
+      Meets (a.advance s', out, evs') (specDecodeAt p pre.length K).2 := by
+  have hg := stepDecodeCtxAt_good K p.st (hsc.inv_fresh hsw.2)
+  have hk := stepDecodeCtxAt_kind K p.st
+  rw [hfresh] at hg hk
+  obtain ⟨hnp, hnh, hinv, herr⟩ := hg
+  simp only at hnp hnh hinv herr hk
+  unfold specDecodeAt
+  rw [hfresh]
+  simp only [List.drop_left']
+  refine ⟨?_, by intro x hx; cases hx; rfl⟩
+  cases out with
+  | fit f =>
+    simp only
+    have hf := stepDecode_fit p.st s' f _ (hsc.inv_fresh hsw.2) rfl (stepDecodeCtxAt_fit K p.st s' f _ hfresh)
+    refine ⟨hw, hsw, ⟨hf.2.2.1, by have := hf.2.1; rw [Spec.st_rest] at this; have := hsc.2; show s'.rest.length < _; omega⟩, ?_⟩
+    show (_ ∧ _)
+    refine ⟨hf.1, ?_⟩
+    show ((a.n + (a.d.rest.length - s'.rest.length)) == 0) = false
+    have hlt := hf.2.1
+    rw [Spec.st_rest] at hlt
+    rcases hn with hn | hn
+    · simp; omega
+    · rw [hn]; simp; omega
+  | err e => exact ⟨hw, hsw, hsc, herr e rfl⟩
+  | panic => exact absurd rfl hnp
+  | hang => exact absurd rfl hnh
+  | header h => exact hk.elim
+  | fileId f => exact hk.elim
+  | done => exact hk.elim
+  | bool b => exact hk.elim
+  | integrity n e => exact hk.elim
+
+/-- `DecodeWithContext` with a context cancelled during the call, in a phase where the decoder is alive -/
+theorem sim_decodeAt_alive (a : Api) (p : Spec) (pre : List Event) (k K : Nat)
+    (hw : a.whole = p.whole) (hsw : Small p.whole ∧ FacOK p.o.fac) (hsc : Small p.cur)
+    (hspec : specStep p (.decodeCtxAt k) = specDecodeAt p pre.length K)
+    (hfresh : stepDecodeCtxAt K p.st = ((stepDecodeCtxAt k a.d).1, (stepDecodeCtxAt k a.d).2.1, pre ++ (stepDecodeCtxAt k a.d).2.2))
+    (hn : a.n ≠ 0 ∨ a.d.rest = p.cur) :
+    Sim (step a (.decodeCtxAt k)).1 (specStep p (.decodeCtxAt k)).1 ∧
+      Meets (step a (.decodeCtxAt k)) (specStep p (.decodeCtxAt k)).2 := by
+  rw [hspec]
+  exact sim_after_decodeAt a p K pre _ _ _ hw hsw hsc hfresh hn
 
 theorem le32_lt (b : List Nat) (h : IsBytes b) : le32 b < 4294967296 := by
   unfold le32
@@ -1092,7 +1252,6 @@ theorem sim_start_next (a : Api) (p : Spec) (hw : a.whole = p.whole) (hsw : Smal
 /-- `PeekFileId` where the decoder computes what a new decoder computes (phases `start`, `header`) -/
 theorem sim_peekFileId_fresh (a : Api) (p : Spec) (hw : a.whole = p.whole) (hsw : Small p.whole ∧ FacOK p.o.fac) (hsc : Small p.cur)
     (hph : p.ph = .start ∨ p.ph = .header) (heq : stepPeekFileId a.d = stepPeekFileId p.st)
-    (hnp : ∀ s1, headerOnce p.st = .ok s1 → peekPast (fuelOf s1) s1 = false)
     (hn : a.n ≠ 0 ∨ a.d.rest = p.cur) :
     Sim (step a .peekFileId).1 (specStep p .peekFileId).1 ∧ Meets (step a .peekFileId) (specStep p .peekFileId).2 := by
   have hspec : specStep p .peekFileId = specPeekFileId p := by
@@ -1106,9 +1265,8 @@ theorem sim_peekFileId_fresh (a : Api) (p : Spec) (hw : a.whole = p.whole) (hsw 
   · have h1 := headerOnce_ok p.st s1 (hsc.inv_fresh hsw.2) rfl hh
     have hf := header_fresh p.o p.cur s1 hsc.1 hsw.2 hh
     have hpl := peekLoop_sat (fuelOf s1) s1 h1.1 (by simp [fuelOf])
-    have hpp := hnp s1 hh
     have hstep : stepPeekFileId p.st = (match peekLoop (fuelOf s1) s1 with
-        | (s2, evs, .ok ()) => (s2, (match s2.q.fileId with | some f => Out.fileId f | none => .panic), evs)
+        | (s2, evs, .ok ()) => (s2, Out.fileId (match s2.q.fileId with | some f => f | none => mkFileId []), evs)
         | (s2, evs, r) => ((fail s2 r).1, (fail s2 r).2, evs)) := by
       unfold stepPeekFileId
       show (match headerOnce p.st with | .ok s1 => _ | r => _) = _
@@ -1121,21 +1279,17 @@ theorem sim_peekFileId_fresh (a : Api) (p : Spec) (hw : a.whole = p.whole) (hsw 
     simp only at hend i2 r2 hfid
     cases r with
     | ok u =>
-      have hsome := hfid rfl
-      cases hq : s2.q.fileId with
-      | none => rw [hq] at hsome; cases hsome
-      | some f =>
-        simp only [hq]
-        refine ⟨⟨hw, hsw, hsc, ?_⟩, by intro x hx; cases hx; rfl⟩
-        show ∃ s1' evs1, _
-        refine ⟨s1, evs, hh, hpk, rfl, rfl, hpp, ?_⟩
-        show a.n + (a.d.rest.length - s2.rest.length) ≠ 0
-        rcases hn with hn | hn
-        · omega
-        · have := r2.len; have := hf.2.2.1; rw [hn]; omega
+      simp only
+      refine ⟨⟨hw, hsw, hsc, ?_⟩, by intro x hx; cases hx; rfl⟩
+      show ∃ s1' evs1, _
+      refine ⟨s1, evs, hh, hpk, rfl, rfl, ?_⟩
+      show a.n + (a.d.rest.length - s2.rest.length) ≠ 0
+      rcases hn with hn | hn
+      · omega
+      · have := r2.len; have := hf.2.2.1; rw [hn]; omega
     | err e =>
       simp only [fail]
-      have hd := decode_when_peek_fails p.st s1 s2 evs e (hsc.inv_fresh hsw.2) rfl hh hpk hpp
+      have hd := decode_when_peek_fails p.st s1 s2 evs e (hsc.inv_fresh hsw.2) rfl hh hpk
       refine ⟨⟨hw, hsw, hsc, ?_⟩, by intro x hx; cases hx; rfl⟩
       show (_ ∧ (stepDecode p.st).2.1 = _ ∧ (stepDecode p.st).2.2.drop evs.length = [])
       refine ⟨rfl, by rw [hd], by rw [hd]; simp⟩
@@ -1148,7 +1302,6 @@ theorem sim_peekFileId_fresh (a : Api) (p : Spec) (hw : a.whole = p.whole) (hsw 
       rfl
     rw [hp]
     exact ⟨sim_to_hdrFailed a p e _ hw hsw hsc hh rfl, by intro x hx; cases hx; rfl⟩
-
 
 theorem stepDiscard_fresh_events (o : Opts) (l : List Nat) (hs : IsBytes l) (hfac : FacOK o.fac) : (stepDiscard (St.fresh o l)).2.2 = [] := by
   rcases discard_fresh o l hs hfac with ⟨e, s', h, _⟩ | ⟨s1, _, h, _⟩ <;> rw [h]
@@ -1177,14 +1330,8 @@ theorem sim_discard_alive (a : Api) (p : Spec) (hw : a.whole = p.whole) (hsw : S
 theorem Api.advance_same (a : Api) : a.advance a.d = a := by
   cases a; simp [Api.advance]
 
-theorem kfPeekPast_false (a : Api) (he : a.d.q.err = none) (s1 : St) (hh : headerOnce a.d = .ok s1)
-    (h : kfPeekPast a .peekFileId = false) : peekPast (fuelOf s1) s1 = false := by
-  unfold kfPeekPast at h
-  rw [he, hh] at h
-  simpa using h
-
 theorem sim_start (a : Api) (p : Spec) (op : Op) (hph : p.ph = .start) (hs : Sim a p)
-    (hop : ∀ o b, op ≠ .reset o b) (hnp : kfPeekPast a op = false) :
+    (hop : ∀ o b, op ≠ .reset o b) :
     Sim (step a op).1 (specStep p op).1 ∧ Meets (step a op) (specStep p op).2 := by
   obtain ⟨hw, hsw, hsc, hm⟩ := hs
   rw [hph] at hm
@@ -1200,11 +1347,11 @@ theorem sim_start (a : Api) (p : Spec) (op : Op) (hph : p.ph = .start) (hs : Sim
     cases c with
     | false => exact hdec.2
     | true => exact sim_cancel a p hw hsw hsc (Or.inl hph) he
+  | decodeCtxAt k =>
+    exact sim_decodeAt_alive a p [] k k hw hsw hsc (by unfold specStep; simp [hph]) (by rw [had]; rfl)
+      (Or.inr (by rw [had]; rfl))
   | peekHeader => exact sim_start_peekHeader a p hw hsw hsc hph had
-  | peekFileId =>
-    refine sim_peekFileId_fresh a p hw hsw hsc (Or.inl hph) (by rw [had]) ?_ (Or.inr (by rw [had]; rfl))
-    intro s1 hh
-    exact kfPeekPast_false a he s1 (by rw [had]; exact hh) hnp
+  | peekFileId => exact sim_peekFileId_fresh a p hw hsw hsc (Or.inl hph) (by rw [had]) (Or.inr (by rw [had]; rfl))
   | discard =>
     have hg := stepDiscard_good a.d hi
     exact sim_discard_alive a p hw hsw hsc (Or.inl hph) (by rw [had]) (by intro _; rw [had]) hg.2.2.2
@@ -1213,7 +1360,7 @@ theorem sim_start (a : Api) (p : Spec) (op : Op) (hph : p.ph = .start) (hs : Sim
   | checkIntegrity => exact sim_ci a p hw hsw hsc (Or.inl hph) he (by rw [had]; rfl) hi
 
 theorem sim_header (a : Api) (p : Spec) (op : Op) (hph : p.ph = .header) (hs : Sim a p)
-    (hop : ∀ o b, op ≠ .reset o b) (hnp : kfPeekPast a op = false) :
+    (hop : ∀ o b, op ≠ .reset o b) :
     Sim (step a op).1 (specStep p op).1 ∧ Meets (step a op) (specStep p op).2 := by
   obtain ⟨hw, hsw, hsc, hm⟩ := hs
   have hsame : Sim a p := ⟨hw, hsw, hsc, hm⟩
@@ -1232,6 +1379,9 @@ theorem sim_header (a : Api) (p : Spec) (op : Op) (hph : p.ph = .header) (hs : S
     cases c with
     | false => exact hdec.2
     | true => exact sim_cancel a p hw hsw hsc (Or.inr (Or.inl hph)) he
+  | decodeCtxAt k =>
+    exact sim_decodeAt_alive a p [] k k hw hsw hsc (by unfold specStep; simp [hph])
+      (by rw [stepDecodeCtxAt_after_header k p.st a.d (hsc.inv_fresh hsw.2) rfl hh]; rfl) (Or.inl hn)
   | peekHeader =>
     have hspec : specStep p .peekHeader = (p, some ((stepPeekHeader p.st).2.1, [])) := by unfold specStep; simp [hph]
     rw [hspec]
@@ -1240,11 +1390,7 @@ theorem sim_header (a : Api) (p : Spec) (op : Op) (hph : p.ph = .header) (hs : S
     rw [hp.1, hp.2, Api.advance_same]
     exact ⟨hsame, by intro x hx; cases hx; rfl⟩
   | peekFileId =>
-    refine sim_peekFileId_fresh a p hw hsw hsc (Or.inr hph) (stepPeekFileId_after_header p.st a.d (hsc.inv_fresh hsw.2) rfl hh) ?_ (Or.inl hn)
-    intro s1 hh'
-    rw [hh] at hh'
-    cases hh'
-    exact kfPeekPast_false a he a.d h1.2.2.2.2.2.2 hnp
+    exact sim_peekFileId_fresh a p hw hsw hsc (Or.inr hph) (stepPeekFileId_after_header p.st a.d (hsc.inv_fresh hsw.2) rfl hh) (Or.inl hn)
   | discard =>
     have hd := discard_mid p.o p.cur hsc.1 hsw.2 a.d a.d [] hh rfl (by rw [hf.1]; rfl) (by rw [hf.1]; omega) rfl hf.2.2.2.1 he h1.2.2.2.1
     exact sim_discard_alive a p hw hsw hsc (Or.inr (Or.inl hph)) hd.1 hd.2.1 hd.2.2 (Or.inl hn)
@@ -1270,7 +1416,7 @@ theorem sim_fileId (a : Api) (p : Spec) (op : Op) (k : Nat) (lost : Bool) (hph :
   obtain ⟨hw, hsw, hsc, hm⟩ := hs
   have hsame : Sim a p := ⟨hw, hsw, hsc, hm⟩
   rw [hph] at hm
-  obtain ⟨s1, evs1, hh, hpk, hk, hlost, hpp, hn⟩ := hm
+  obtain ⟨s1, evs1, hh, hpk, hk, hlost, hn⟩ := hm
   have h1 := headerOnce_ok p.st s1 (hsc.inv_fresh hsw.2) rfl hh
   have hf := header_fresh p.o p.cur s1 hsc.1 hsw.2 hh
   have hpl := peekLoop_sat (fuelOf s1) s1 h1.1 (by simp [fuelOf])
@@ -1283,7 +1429,7 @@ theorem sim_fileId (a : Api) (p : Spec) (op : Op) (k : Nat) (lost : Bool) (hph :
   have ho : a.d.o = p.o := by rw [r2.o]; exact hf.2.2.2.1
   have hho := headerOnce_done a.d hd he
   have hdec := sim_decode_alive a p evs1 false rfl hw hsw hsc (Or.inr (Or.inr ⟨lost, by rw [hk]; exact hph⟩))
-    (decode_after_peek p.st s1 a.d evs1 (hsc.inv_fresh hsw.2) rfl hh hpk hpp) he (Or.inl hn)
+    (decode_after_peek p.st s1 a.d evs1 (hsc.inv_fresh hsw.2) rfl hh hpk) he (Or.inl hn)
   cases op with
   | reset o b => exact absurd rfl (hop o b)
   | decode => exact hdec.1
@@ -1291,6 +1437,12 @@ theorem sim_fileId (a : Api) (p : Spec) (op : Op) (k : Nat) (lost : Bool) (hph :
     cases c with
     | false => exact hdec.2
     | true => exact sim_cancel a p hw hsw hsc (Or.inr (Or.inr ⟨k, lost, hph⟩)) he
+  | decodeCtxAt j =>
+    have hpeeked : p.peeked = peekCount (fuelOf s1) s1 := by unfold Spec.peeked; rw [hh]
+    refine sim_decodeAt_alive a p evs1 j (peekCount (fuelOf s1) s1 + j) hw hsw hsc ?_
+      (decodeAt_after_peek j p.st s1 a.d evs1 (hsc.inv_fresh hsw.2) rfl hh hpk) (Or.inl hn)
+    unfold specStep
+    simp [hph, hk, hpeeked]
   | peekHeader =>
     have hspec : specStep p .peekHeader = (p, some ((stepPeekHeader p.st).2.1, [])) := by unfold specStep; simp [hph]
     rw [hspec]
@@ -1306,26 +1458,25 @@ theorem sim_fileId (a : Api) (p : Spec) (op : Op) (k : Nat) (lost : Bool) (hph :
   | peekFileId =>
     have hspec : specStep p .peekFileId = (p, some ((stepPeekFileId p.st).2.1, [])) := by unfold specStep; simp [hph]
     rw [hspec]
-    cases hq : a.d.q.fileId with
-    | none => rw [hq] at hfid'; cases hfid'
-    | some f =>
-      have hfr : (stepPeekFileId p.st).2.1 = .fileId f := by
-        have : stepPeekFileId p.st = (a.d, .fileId f, evs1) := by
-          unfold stepPeekFileId
-          show (match headerOnce p.st with | .ok s1 => _ | r => _) = _
-          rw [hh]
-          simp only [hpk, hq]
-        rw [this]
-      have hm : stepPeekFileId a.d = (a.d, .fileId f, []) := by
+    have hfr : (stepPeekFileId p.st).2.1 = .fileId (match a.d.q.fileId with | some f => f | none => mkFileId []) := by
+      have : stepPeekFileId p.st = (a.d, .fileId (match a.d.q.fileId with | some f => f | none => mkFileId []), evs1) := by
         unfold stepPeekFileId
-        rw [he]
-        show (match headerOnce a.d with | .ok s1 => _ | r => _) = _
-        rw [hho]
-        have : peekLoop (fuelOf a.d) a.d = (a.d, [], .ok ()) := peekLoop_done _ a.d (by rw [hq]; rfl)
-        simp only [this, hq]
-      show Sim (a.advance (stepPeekFileId a.d).1) _ ∧ Meets (a.advance (stepPeekFileId a.d).1, (stepPeekFileId a.d).2.1, (stepPeekFileId a.d).2.2) _
-      rw [hm, hfr, Api.advance_same]
-      exact ⟨hsame, by intro x hx; cases hx; rfl⟩
+        show (match headerOnce p.st with | .ok s1 => _ | r => _) = _
+        rw [hh]
+        simp only [hpk]
+        rfl
+      rw [this]
+    have hm : stepPeekFileId a.d = (a.d, .fileId (match a.d.q.fileId with | some f => f | none => mkFileId []), []) := by
+      unfold stepPeekFileId
+      rw [he]
+      show (match headerOnce a.d with | .ok s1 => _ | r => _) = _
+      rw [hho]
+      have : peekLoop (fuelOf a.d) a.d = (a.d, [], .ok ()) := peekLoop_done _ a.d hfid'
+      simp only [this]
+      rfl
+    show Sim (a.advance (stepPeekFileId a.d).1) _ ∧ Meets (a.advance (stepPeekFileId a.d).1, (stepPeekFileId a.d).2.1, (stepPeekFileId a.d).2.2) _
+    rw [hm, hfr, Api.advance_same]
+    exact ⟨hsame, by intro x hx; cases hx; rfl⟩
   | discard =>
     cases lost with
     | true =>
@@ -1384,42 +1535,32 @@ theorem sim_blind (a : Api) (p : Spec) (op : Op) (hph : p.ph = .blind) (hs : Sim
     · split <;> rfl
   | _ => rfl
 
-/-- **one step of the simulation**: from related states, whatever is called (outside the open finding F09: no
-`PeekFileId` that reads past the data window), the results are those the specification demands and the states are related again -/
-theorem sim_step (a : Api) (p : Spec) (op : Op) (hs : Sim a p) (hop : OpSmall op) (hnp : kfPeekPast a op = false) :
+/-- **one step of the simulation**: from related states, whatever is called, the results are those the specification
+demands and the states are related again -/
+theorem sim_step (a : Api) (p : Spec) (op : Op) (hs : Sim a p) (hop : OpSmall op) :
     Sim (step a op).1 (specStep p op).1 ∧ Meets (step a op) (specStep p op).2 := by
   by_cases hr : ∃ o b, op = .reset o b
   · obtain ⟨o, b, rfl⟩ := hr
     exact sim_reset a p o b hop
   · have hop' : ∀ o b, op ≠ .reset o b := fun o b h => hr ⟨o, b, h⟩
     cases hph : p.ph with
-    | start => exact sim_start a p op hph hs hop' hnp
-    | header => exact sim_header a p op hph hs hop' hnp
+    | start => exact sim_start a p op hph hs hop'
+    | header => exact sim_header a p op hph hs hop'
     | fileId k l => exact sim_fileId a p op k l hph hs hop'
     | peekFailed e k => exact sim_peekFailed a p e k op hop' hph hs
     | dead e => exact sim_dead a p e op hop' hph hs
     | blind => exact sim_blind a p op hph hs hop'
 
-/-- no `PeekFileId` of the run reads past the data window of its sequence (the class of the open finding F09) -/
-def NoPeekPast : Api → List Op → Prop
-  | _, [] => True
-  | a, op :: ops => kfPeekPast a op = false ∧ NoPeekPast (step a op).1 ops
-
-instance : ∀ (a : Api) (ops : List Op), Decidable (NoPeekPast a ops)
-  | _, [] => isTrue trivial
-  | a, op :: ops =>
-    have := instDecidableNoPeekPast (step a op).1 ops
-    inferInstanceAs (Decidable (_ ∧ _))
-
-theorem sim_run : ∀ (ops : List Op) (a : Api) (p : Spec), Sim a p → (∀ op ∈ ops, OpSmall op) → NoPeekPast a ops →
+theorem sim_run : ∀ (ops : List Op) (a : Api) (p : Spec), Sim a p → (∀ op ∈ ops, OpSmall op) →
     ∀ x ∈ (run a ops).zip (specRun p ops), ∀ r, x.2 = some r → x.1 = r
-  | [], _, _, _, _, _ => by intro x hx; cases hx
-  | op :: ops, a, p, hs, hops, hnp => by
+  | [], _, _, _, _ => by intro x hx; cases hx
+  | op :: ops, a, p, hs, hops => by
     intro x hx r hr
-    have hstep := sim_step a p op hs (hops op (by simp)) hnp.1
+    have hstep := sim_step a p op hs (hops op (by simp))
     unfold run specRun at hx
     simp only [List.zip_cons_cons, List.mem_cons] at hx
     rcases hx with rfl | hx
     · exact hstep.2 r hr
-    · exact sim_run ops _ _ hstep.1 (fun o ho => hops o (by simp [ho])) hnp.2 x hx r hr
+    · exact sim_run ops _ _ hstep.1 (fun o ho => hops o (by simp [ho])) x hx r hr
+
 end Fit.DecApi
